@@ -33,6 +33,18 @@ PROPOSED_KNOWN = [
      "what": "package-level variables are sorted by their DIRECT dependencies only (checker_package.go sortDeclarations treats every function as resolved): var a = f(); var b = 1; func f() int { return b } initialises a before b"},
     {"kind": "known", "signature": {"fam": "initorder", "cause": "recursion-reported-as-cycle"},
      "what": "a recursive function (or mutually recursive functions) reachable from a package-level variable initialiser is rejected as 'typechecking loop' (checker_package.go checkDepsPath reports any repeated node on the path, not only the variable itself)"},
+    {"kind": "known", "signature": {"fam": "minigo", "shape": "loops:break-outer", "cause": "wrong-output"},
+     "what": "break L from an inner for loop, L labelling an outer loop, only leaves the inner loop: the emitter ignores the label of break (emitter_statements.go case *ast.Break)"},
+    {"kind": "known", "signature": {"fam": "minigo", "shape": "loops:continue-outer", "cause": "hostpanic"},
+     "what": "continue with a label is not implemented: Build panics into the host with 'internal error: not implemented' instead of compiling it (emitter_statements.go case *ast.Continue)"},
+    {"kind": "known", "signature": {"fam": "minigo", "shape": "loops:continue-own-label", "cause": "hostpanic"},
+     "what": "continue with a label is not implemented (even the loop's own label): Build panics into the host"},
+    {"kind": "known", "signature": {"fam": "minigo", "shape": "strings:range-continue-label", "cause": "hostpanic"},
+     "what": "continue with a label inside for-range is not implemented: Build panics into the host"},
+    {"kind": "known", "signature": {"fam": "minigo", "shape": "closures:append", "cause": "hostpanic"},
+     "what": "append(fs, func() int {...}) on a slice of functions panics into the host: reflect.Set: value of type *runtime.callable is not assignable to type func() int (run.go appendSlice)"},
+    {"kind": "known", "signature": {"fam": "minigo", "shape": "closures:loopvar", "cause": "wrong-output"},
+     "what": "closures capturing the variable of a 3-clause for loop share one variable for all iterations (pre-Go-1.22 semantics); gc (go >= 1.22) gives every iteration its own copy"},
     {"kind": "known", "signature": {"fam": "intalu", "op": "not", "k": "uintptr", "cause": "hostpanic"},
      "what": "^x with x of type uintptr panics in the emitter (constant.go maxUnsigned has no entry for reflect.Uintptr): Build panics into the host"},
 ]
@@ -115,7 +127,374 @@ def part_conv(ctx):
     return cases, info
 
 
-PARTS = [("intalu", part_intalu), ("initorder", part_initorder), ("conv", part_conv)]
+# ------------------------------------------------------------------------------------------ MiniGo generator
+# Seeded generator of MiniGo programs (the AST of spec/gosem/MiniGo.tla), one function per shape.
+# It only builds programs; what they print is decided by the TLA+ interpreter.
+def C(n): return {"e": "c", "n": n}
+def STR(bs): return {"e": "str", "b": list(bs)}
+def V(v): return {"e": "v", "v": v}
+def Bin(op, a, b): return {"e": "bin", "op": op, "a": a, "b": b}
+def Cmp(op, a, b): return {"e": "cmp", "op": op, "a": a, "b": b}
+def Idx(of, a, i): return {"e": "idx", "of": of, "a": a, "i": i}
+def Len_(of, a): return {"e": "len", "of": of, "a": a}
+def Call(f): return {"e": "call", "f": f}
+def Decl(v, e): return {"s": "decl", "v": v, "e": e}
+def SetV(v, e): return {"s": "set", "lv": {"l": "v", "v": v}, "e": e}
+def SetIdx(of, v, i, e): return {"s": "set", "lv": {"l": "idx", "of": of, "v": v, "i": i}, "e": e}
+def SetMap(v, k, e): return {"s": "set", "lv": {"l": "map", "v": v, "k": k}, "e": e}
+def SetField(of, v, f, e): return {"s": "set", "lv": {"l": "field", "of": of, "v": v, "f": f}, "e": e}
+def Print(*items): return {"s": "print", "es": [{"k": k, "e": e} for k, e in items]}
+def PI(*es): return Print(*[("i", e) for e in es])
+def If(c, a, b=None): return {"s": "if", "c": c, "a": a, "b": b or []}
+def For(label, v, init, cond, post, body): return {"s": "for", "label": label, "v": v, "init": init, "cond": cond, "post": post, "body": body}
+def Inc(v, d=1): return SetV(v, Bin("+", V(v), C(d)))
+def Jump(kind, label=""): return {"s": kind, "label": label}
+NOP = {"s": "nop"}
+def Mod(e, m): return Bin("%", e, C(m))
+
+
+class Vars:
+    def __init__(self): self.n = 0
+    def new(self):
+        self.n += 1
+        return self.n
+
+
+def mg_loops(rng, variant=None):
+    """variants: plain (unlabelled jumps only), break-outer (break L1 from the inner loop), continue-outer (continue L1),
+    break-own-label (break L2 inside L2), continue-own-label (continue L2 inside L2)"""
+    variant = variant or rng.choice(["plain", "break-outer", "continue-outer", "break-own-label", "continue-own-label"])
+    vs = Vars()
+    acc, i, j = vs.new(), vs.new(), vs.new()
+    A, B = rng.randint(2, 4), rng.randint(2, 4)
+    X, M = rng.randint(1, 3), rng.randint(2, 4)
+    special = {"plain": None, "break-outer": Jump("break", "L1"), "continue-outer": Jump("continue", "L1"),
+               "break-own-label": Jump("break", "L2"), "continue-own-label": Jump("continue", "L2")}[variant]
+    plain = [Jump("continue"), Jump("break")]
+    j1 = special or rng.choice(plain)
+    j2 = rng.choice(plain)
+    if rng.random() < 0.5:
+        j1, j2 = j2, j1
+    inner = [
+        If(Cmp("==", Mod(Bin("+", Bin("*", V(i), C(X)), V(j)), M), C(rng.randint(0, M - 1))), [j1]),
+        SetV(acc, Mod(Bin("+", Bin("*", V(acc), C(3)), Bin("+", V(i), V(j))), 1000)),
+        If(Cmp(rng.choice([">", "==", ">="]), Bin("+", V(i), V(j)), C(rng.randint(1, 4))), [PI(C(-1), V(i), V(j)), j2]),
+        PI(V(i), V(j), V(acc)),
+    ]
+    l1 = "L1" if variant in ("break-outer", "continue-outer") else ""
+    l2 = "L2" if variant in ("break-own-label", "continue-own-label") else ""
+    outer = [For(l2, j, C(0), Cmp("<", V(j), C(B)), Inc(j), inner), PI(C(-2), V(i), V(acc))]
+    body = [Decl(acc, C(rng.randint(0, 5))),
+            For(l1, i, C(0), Cmp("<", V(i), C(A)), Inc(i), outer),
+            PI(V(acc))]
+    return {"nv": vs.n, "body": body, "variant": variant}
+
+
+def mg_switch(rng):
+    vs = Vars()
+    k, acc = vs.new(), vs.new()
+    n, M = rng.randint(4, 7), rng.randint(3, 5)
+    vals = list(range(M))
+    rng.shuffle(vals)
+    ncl = rng.randint(2, 4)
+    clauses = []
+    for c in range(ncl):
+        if not vals:
+            break
+        mine = [vals.pop()]
+        if vals and rng.random() < 0.4:
+            mine.append(vals.pop())
+        body = [PI(C(10 * (c + 1)), V(k))]
+        if rng.random() < 0.35:
+            body.append(If(Cmp("==", Mod(V(k), 2), C(rng.randint(0, 1))), [Jump("break")]))
+            body.append(PI(C(10 * (c + 1) + 1)))
+        if rng.random() < 0.3:
+            body.append(If(Cmp(">", V(k), C(n - 2)), [Jump("continue")]))
+        body.append(SetV(acc, Mod(Bin("+", Bin("*", V(acc), C(2)), C(c + 1)), 1000)))
+        clauses.append({"def": False, "vals": mine, "body": body, "ft": False})
+    if rng.random() < 0.8:
+        clauses.insert(rng.randint(0, len(clauses)), {"def": True, "vals": [], "body": [PI(C(99), V(k)), SetV(acc, Mod(Bin("+", V(acc), C(7)), 1000))], "ft": False})
+    for c in clauses[:-1]:
+        c["ft"] = rng.random() < 0.45
+    sw = {"s": "switch", "e": Mod(Bin("*", V(k), C(rng.randint(1, 3))), M), "clauses": clauses}
+    body = [Decl(acc, C(1)), For("", k, C(0), Cmp("<", V(k), C(n)), Inc(k), [sw, PI(C(-1), V(acc))]), PI(V(acc))]
+    return {"nv": vs.n, "body": body}
+
+
+def mg_goto(rng):
+    vs = Vars()
+    i, acc = vs.new(), vs.new()
+    N, S = rng.randint(5, 9), rng.randint(1, 3)
+    body = [Decl(i, C(0)), Decl(acc, C(0)),
+            {"s": "label", "name": "L"},
+            If(Cmp("<", V(i), C(N)), [PI(V(i), V(acc)), SetV(i, Bin("+", V(i), C(S))), SetV(acc, Mod(Bin("+", Bin("*", V(acc), C(2)), V(i)), 1000)),
+                                      If(Cmp("==", Mod(V(i), 3), C(rng.randint(0, 2))), [Jump("goto", "M")]),
+                                      Jump("goto", "L")]),
+            PI(C(-1), V(i)),
+            {"s": "label", "name": "M"},
+            PI(C(100), V(i), V(acc)),
+            Inc(i),
+            If(Cmp("<", V(i), C(N + rng.randint(0, 3))), [Jump("goto", "L")]),
+            PI(V(i), V(acc))]
+    return {"nv": vs.n, "body": body}
+
+
+def mg_closures(rng, variant=None):
+    """variants: loopvar (closures stored by index capture the loop variable: one variable per iteration),
+    bodyvar (they capture a variable declared in the loop body), append (closures appended to a slice), counter"""
+    variant = variant or rng.choice(["loopvar", "bodyvar", "append", "counter"])
+    vs = Vars()
+    fs, i, k, j, c, inc = vs.new(), vs.new(), vs.new(), vs.new(), vs.new(), vs.new()
+    N, X, D = rng.randint(2, 4), rng.randint(1, 5), rng.randint(1, 4)
+    body = []
+    if variant in ("loopvar", "bodyvar", "append"):
+        ret = Bin("+", Bin("*", V(i), C(10)), C(X)) if variant == "loopvar" else Bin("+", V(k), C(X))
+        clo = {"e": "clo", "body": ([] if variant == "loopvar" else [SetV(k, Bin("+", V(k), C(1)))]) + [{"s": "ret", "e": ret}]}
+        loop_body = [] if variant == "loopvar" else [Decl(k, Bin("*", V(i), C(X)))]
+        if variant == "append":
+            loop_body.append(SetV(fs, {"e": "append", "a": V(fs), "x": clo}))
+        else:
+            loop_body.append(SetIdx("slice", fs, V(i), clo))
+        if variant == "loopvar" and rng.random() < 0.5:
+            loop_body.append(If(Cmp("==", V(i), C(rng.randint(0, N - 1))), [Inc(i)]))     # changes this iteration's copy; carried over
+        if variant != "loopvar" and rng.random() < 0.5:
+            loop_body.append(SetV(k, Bin("+", V(k), C(100))))                              # after capture: the closure sees it
+        callf = Call(Idx("slice", V(fs), V(j)))
+        body += [Decl(fs, {"e": "nilslice", "ty": "func"} if variant == "append" else {"e": "mkfuncs", "len": N + 1}),
+                 For("", i, C(0), Cmp("<", V(i), C(N)), Inc(i), loop_body),
+                 PI(Len_("slice", V(fs))),
+                 For("", j, C(0), Cmp("<", V(j), C(N if variant != "loopvar" else 1)), Inc(j), [PI(V(j), callf), PI(callf)])]
+    body += [Decl(c, C(rng.randint(0, 3))),
+             Decl(inc, {"e": "clo", "body": [SetV(c, Bin("+", V(c), C(D))), {"s": "ret", "e": V(c)}]}),
+             PI(Call(V(inc)), Call(V(inc)), V(c)),
+             SetV(c, C(50)), PI(Call(V(inc)))]
+    return {"nv": vs.n, "body": body, "variant": variant}
+
+
+def mg_values(rng):
+    vs = Vars()
+    a, b, s, t, p, i, q = [vs.new() for _ in range(7)]
+    vals = [rng.randint(1, 9) for _ in range(3)]
+    X = rng.randint(2, 4)
+    body = [Decl(a, {"e": "lit", "of": "arr", "es": [C(v) for v in vals]}),
+            Decl(b, V(a)),                                                   # array copy
+            SetIdx("arr", b, C(rng.randint(0, 2)), C(rng.randint(10, 19))),
+            PI(Idx("arr", V(a), C(0)), Idx("arr", V(a), C(1)), Idx("arr", V(a), C(2)), Idx("arr", V(b), C(0)), Idx("arr", V(b), C(1)), Idx("arr", V(b), C(2))),
+            For("", i, C(0), Cmp("<", V(i), Len_("arr", V(a))), Inc(i), [SetIdx("arr", a, V(i), Mod(Bin("*", Idx("arr", V(a), V(i)), C(X)), 100))]),
+            PI(Idx("arr", V(a), C(0)), Idx("arr", V(a), C(2)), Idx("arr", V(b), C(1))),
+            Decl(s, {"e": "lit", "of": "st", "es": [C(rng.randint(1, 9)), C(rng.randint(1, 9))]}),
+            Decl(t, V(s)),                                                   # struct copy
+            SetField("st", t, 1, C(rng.randint(20, 29))),
+            Decl(p, {"e": "addr", "v": s}),                                  # pointer aliasing
+            SetField("ptr", p, 2, C(rng.randint(30, 39))),
+            PI({"e": "field", "of": "st", "a": V(s), "f": 1}, {"e": "field", "of": "st", "a": V(s), "f": 2},
+               {"e": "field", "of": "st", "a": V(t), "f": 1}, {"e": "field", "of": "st", "a": V(t), "f": 2},
+               {"e": "field", "of": "ptr", "a": V(p), "f": 1}, {"e": "field", "of": "ptr", "a": V(p), "f": 2}),
+            SetField("st", s, 1, C(rng.randint(40, 49))),
+            Decl(q, V(p)),
+            PI({"e": "field", "of": "ptr", "a": V(q), "f": 1}, {"e": "field", "of": "st", "a": V(t), "f": 1})]
+    return {"nv": vs.n, "body": body}
+
+
+def mg_slices(rng):
+    vs = Vars()
+    s, t, u, w, x, y = [vs.new() for _ in range(6)]
+    ln, cp = rng.randint(1, 2), rng.randint(3, 5)
+    body = [Decl(s, {"e": "mkslice", "len": ln, "cap": cp})]
+    for k in range(ln):
+        body.append(SetIdx("slice", s, C(k), C(rng.randint(1, 9))))
+    body += [Decl(t, {"e": "append", "a": V(s), "x": C(rng.randint(10, 19))}),
+             Decl(u, {"e": "append", "a": V(s), "x": C(rng.randint(20, 29))}),        # same cell as t[ln]
+             PI(Idx("slice", V(t), C(ln)), Idx("slice", V(u), C(ln)), Len_("slice", V(t)), {"e": "cap", "a": V(t)}, Len_("slice", V(s))),
+             Decl(w, {"e": "slice", "of": "slice", "a": V(s), "lo": C(rng.randint(0, ln)), "hi": C(rng.randint(ln + 1, cp))}),
+             PI(Len_("slice", V(w)), {"e": "cap", "a": V(w)}, Idx("slice", V(w), C(0))),
+             SetIdx("slice", w, C(0), C(rng.randint(30, 39))),
+             PI(Idx("slice", V(u), C(0)), Idx("slice", V(u), C(ln)), Idx("slice", V(w), C(0))),
+             Decl(x, V(u))]
+    # fill up to capacity in place, then one growing append
+    for k in range(cp - (ln + 1)):
+        body.append(SetV(x, {"e": "append", "a": V(x), "x": C(40 + k)}))
+    body += [PI(Len_("slice", V(x)), {"e": "cap", "a": V(x)}, Idx("slice", V(x), Bin("-", Len_("slice", V(x)), C(1)))),
+             Decl(y, {"e": "append", "a": V(x), "x": C(77)}),                         # grows: fresh array
+             SetIdx("slice", y, C(0), C(rng.randint(50, 59))),
+             PI(Idx("slice", V(x), C(0)), Idx("slice", V(y), C(0)), Len_("slice", V(y)), Idx("slice", V(y), Bin("-", Len_("slice", V(y)), C(1))))]
+    return {"nv": vs.n, "body": body}
+
+
+def mg_maps(rng):
+    vs = Vars()
+    m, i, n, m2 = [vs.new() for _ in range(4)]
+    K, N = rng.randint(2, 4), rng.randint(4, 8)
+    mg = lambda mv, k: {"e": "mapget", "a": V(mv), "k": k}
+    body = [Decl(m, {"e": "mkmap"}),
+            For("", i, C(0), Cmp("<", V(i), C(N)), Inc(i), [SetMap(m, Mod(V(i), K), Bin("+", mg(m, Mod(V(i), K)), V(i)))]),
+            PI(Len_("map", V(m)), mg(m, C(0)), mg(m, C(1)), mg(m, C(K + 3))),
+            {"s": "del", "v": m, "k": C(rng.randint(0, K))},
+            {"s": "del", "v": m, "k": C(K + 5)},
+            PI(Len_("map", V(m)), mg(m, C(0)), mg(m, C(1))),
+            Decl(m2, V(m)),                                                  # maps are references
+            SetMap(m2, C(rng.randint(10, 12)), C(rng.randint(1, 9))),
+            PI(Len_("map", V(m)), Len_("map", V(m2))),
+            Decl(n, {"e": "nilmap"}),
+            PI(Len_("map", V(n)), mg(n, C(1))),
+            {"s": "del", "v": n, "k": C(1)}]
+    return {"nv": vs.n, "body": body}
+
+
+PIECES = [b"a", b"Z", b"\xc3\xa9", b"\xe2\x82\xac", b"\xf0\x9f\x98\x80", b"\xff", b"\xc3", b"\xe2\x82", b"0"]
+
+
+def rand_str(rng, lo=2, hi=5):
+    return b"".join(rng.choice(PIECES) for _ in range(rng.randint(lo, hi)))
+
+
+def mg_strings(rng, variant=None):
+    variant = variant or rng.choice(["plain", "plain", "range-continue-label"])
+    lab = "R" if variant == "range-continue-label" else ""
+    vs = Vars()
+    s, t, i, r, cnt = [vs.new() for _ in range(5)]
+    bs = rand_str(rng)
+    a = rng.randint(0, len(bs) - 1)
+    b = rng.randint(a, len(bs))
+    body = [Decl(s, STR(bs)),
+            PI(Len_("str", V(s)), Idx("str", V(s), C(0)), Idx("str", V(s), Bin("-", Len_("str", V(s)), C(1)))),
+            Decl(t, {"e": "slice", "of": "str", "a": V(s), "lo": C(a), "hi": C(b)}),
+            Print(("i", Len_("str", V(t))), ("s", V(t))),
+            Decl(cnt, C(0)),
+            {"s": "ranges", "label": lab, "iv": i, "rv": r, "e": V(s), "body": [
+                If(Cmp("==", V(r), C(65533)), [PI(C(-1), V(i)), Jump("continue", lab)]),
+                SetV(cnt, Bin("+", V(cnt), C(1))),
+                PI(V(i), V(r))]},
+            PI(V(cnt)),
+            {"s": "ranges", "label": "", "iv": 0, "rv": r, "e": V(t), "body": [PI(V(r)), If(Cmp(">", V(r), C(127)), [Jump("break")])]},
+            Print(("b", Cmp("==", V(t), {"e": "slice", "of": "str", "a": V(s), "lo": C(a), "hi": C(b)})))]
+    return {"nv": vs.n, "body": body, "variant": variant}
+
+
+FAULT_KINDS = ["idx-arr-get", "idx-arr-set", "idx-slice-get", "idx-slice-set", "idx-str", "idx-neg", "slice-cap", "slice-lohi", "str-slice",
+               "nilmap", "nilptr-get", "nilptr-set", "assert-int", "assert-str", "none"]
+
+
+def mg_faults(rng, variant=None):
+    vs = Vars()
+    a, s, m, p, x, i, st, q, h = [vs.new() for _ in range(9)]
+    kind = variant or rng.choice(FAULT_KINDS)
+    n = rng.randint(2, 4)
+    body = [Decl(i, C(rng.randint(0, 1))), PI(C(1), V(i))]
+    over = Bin("+", V(i), C(n))           # >= n
+    if kind in ("idx-arr-get", "idx-arr-set", "idx-neg"):
+        body += [Decl(a, {"e": "lit", "of": "arr", "es": [C(k + 1) for k in range(n)]}), PI(Idx("arr", V(a), V(i)))]
+        if kind == "idx-arr-get":
+            body += [PI(Idx("arr", V(a), over))]
+        elif kind == "idx-arr-set":
+            body += [SetIdx("arr", a, over, C(5))]
+        else:
+            body += [PI(Idx("arr", V(a), Bin("-", V(i), C(rng.randint(2, 3)))))]
+    elif kind in ("idx-slice-get", "idx-slice-set", "slice-cap", "slice-lohi"):
+        body += [Decl(s, {"e": "mkslice", "len": n, "cap": n + rng.randint(0, 2)}), PI(Idx("slice", V(s), V(i)), Len_("slice", V(s)), {"e": "cap", "a": V(s)})]
+        if kind == "idx-slice-get":
+            body += [PI(Idx("slice", V(s), over))]
+        elif kind == "idx-slice-set":
+            body += [SetIdx("slice", s, over, C(5))]
+        elif kind == "slice-cap":
+            body += [Decl(h, Bin("+", {"e": "cap", "a": V(s)}, C(rng.randint(1, 2)))),
+                     Decl(q, {"e": "slice", "of": "slice", "a": V(s), "lo": C(0), "hi": V(h)}), PI(Len_("slice", V(q)))]
+        else:
+            body += [Decl(h, Bin("+", V(i), C(2))),
+                     Decl(q, {"e": "slice", "of": "slice", "a": V(s), "lo": V(h), "hi": Bin("-", V(h), C(1))}), PI(Len_("slice", V(q)))]
+    elif kind in ("idx-str", "str-slice"):
+        bs = rand_str(rng, 2, 4)
+        body += [Decl(st, STR(bs)), PI(Len_("str", V(st)))]
+        if kind == "idx-str":
+            body += [PI(Idx("str", V(st), Bin("+", V(i), C(len(bs)))))]
+        else:
+            body += [Decl(h, Bin("+", V(i), C(len(bs) + 1))),
+                     Decl(q, {"e": "slice", "of": "str", "a": V(st), "lo": C(0), "hi": V(h)}), PI(Len_("str", V(q)))]
+    elif kind == "nilmap":
+        body += [Decl(m, {"e": "nilmap"}), PI({"e": "mapget", "a": V(m), "k": C(1)}), SetMap(m, C(1), C(2))]
+    elif kind in ("nilptr-get", "nilptr-set"):
+        body += [Decl(p, {"e": "nilptr"}), PI(C(2))]
+        body += [PI({"e": "field", "of": "ptr", "a": V(p), "f": 1})] if kind == "nilptr-get" else [SetField("ptr", p, 2, C(3))]
+    elif kind in ("assert-int", "assert-str"):
+        if kind == "assert-int":
+            body += [Decl(x, {"e": "box", "dyn": "string", "a": STR(b"hi")}),
+                     Print(("s", {"e": "assert", "ty": "string", "a": V(x)})),
+                     PI({"e": "assert", "ty": "int", "a": V(x)})]
+        else:
+            body += [Decl(x, {"e": "box", "dyn": "int", "a": Bin("+", V(i), C(40))}),
+                     PI({"e": "assert", "ty": "int", "a": V(x)}),
+                     Print(("s", {"e": "assert", "ty": "string", "a": V(x)}))]
+    body += [PI(C(999))]
+    return {"nv": vs.n, "body": body, "fault": kind}
+
+
+# every (shape, variant) pair is generated in turn, so that each run covers all of them
+MG_VARIANTS = ([(mg_loops, v) for v in ("plain", "break-outer", "continue-outer", "break-own-label", "continue-own-label")]
+               + [(mg_switch, None), (mg_goto, None)]
+               + [(mg_closures, v) for v in ("loopvar", "bodyvar", "append", "counter")]
+               + [(mg_values, None), (mg_slices, None), (mg_maps, None)]
+               + [(mg_strings, v) for v in ("plain", "range-continue-label")]
+               + [(mg_faults, v) for v in FAULT_KINDS])
+
+
+def mg_programs(rng, n):
+    out = []
+    for k in range(n):
+        f, variant = MG_VARIANTS[k % len(MG_VARIANTS)]
+        p = f(rng, variant) if variant else f(rng)
+        p["id"] = k + 1
+        p["shape"] = f.__name__[3:] + (":" + p.pop("fault") if "fault" in p else "") + (":" + p.pop("variant") if "variant" in p else "")
+        out.append(p)
+    return out
+
+
+def mg_tla(v):
+    if isinstance(v, bool):
+        return "TRUE" if v else "FALSE"
+    if isinstance(v, dict):
+        return "[" + ", ".join(f"{k} |-> {mg_tla(x)}" for k, x in v.items() if k != "shape") + "]"
+    if isinstance(v, (list, tuple)):
+        return "<<" + ", ".join(mg_tla(x) for x in v) + ">>"
+    if isinstance(v, str):
+        return '"' + v + '"'
+    return str(v)
+
+
+def part_minigo(ctx):
+    nprog = ctx.pick(2, 20) * len(MG_VARIANTS)
+    progs = mg_programs(random.Random(ctx.seed * 7919 + 11), nprog)
+    batch = 62
+    parts = [progs[b:b + batch] for b in range(0, len(progs), batch)]
+    info = {"states": 0, "transitions": 0, "mc_wall_s": 0, "programs_generated": len(progs), "mc_invariants": ["InDomain"]}
+
+    def one(k):
+        wd = ctx.stage(f"mc_minigo_{k}", FAMS)
+        (wd / "MiniGoProgs.tla").write_text("---- MODULE MiniGoProgs ----\nEXTENDS Integers\nProgs == <<\n" +
+                                            ",\n".join(mg_tla(p) for p in parts[k]) + "\n>>\n====\n")
+        rig.write_cfg(wd / "MC_MiniGo.cfg", invariants=["InDomain"], postcondition="Export")
+        r = ctx.tlc(wd, "MC_MiniGo", workers=2, timeout=1500, must_pass=True)
+        return r, rig.read_ndjson(wd / "cases.ndjson")
+    cases, shapes = [], {}
+    with cf.ThreadPoolExecutor(max_workers=4) as ex:
+        for k, (r, res) in enumerate(ex.map(one, range(len(parts)))):
+            info["states"] += r.distinct
+            info["transitions"] += r.generated
+            info["mc_wall_s"] = round(info["mc_wall_s"] + r.wall, 1)
+            byid = {c["id"]: c for c in res}
+            for p in parts[k]:
+                e = byid[p["id"]]
+                if e["outcome"] not in ("ok", "panic"):
+                    raise Infra(f"MiniGo generator produced a program outside the interpreter's domain: id {p['id']} shape {p['shape']}")
+                shapes[p["shape"]] = shapes.get(p["shape"], 0) + 1
+                cases.append({"id": p["id"], "fam": "minigo", "shape": p["shape"], "prog": {"nv": p["nv"], "body": p["body"]},
+                              "exp": {"out": e["out"], "outcome": e["outcome"], "msg": e["msg"]}})
+    info["cases"] = len(cases)
+    info["shapes"] = shapes
+    info["expected_panics"] = sum(1 for c in cases if c["exp"]["outcome"] == "panic")
+    return cases, info
+
+
+PARTS = [("intalu", part_intalu), ("initorder", part_initorder), ("conv", part_conv), ("minigo", part_minigo)]
 
 
 # ------------------------------------------------------------------------------------------ helpers
@@ -126,6 +505,8 @@ def case_from_obs(o):
         return {k: o[k] for k in ("id", "fam", "nv", "nf", "deps")}
     if o["fam"] == "conv":
         return {k: o[k] for k in ("id", "fam", "op", "k", "v", "a")}
+    if o["fam"] == "minigo":
+        return {k: o[k] for k in ("id", "fam", "shape", "prog", "exp")}
     raise Infra("unknown family in observation: %r" % o.get("fam"))
 
 
@@ -143,7 +524,18 @@ def sample(o):
     if o["fam"] == "initorder":
         return {"fam": "initorder", "variables": o["nv"], "functions": o["nf"], "deps": o["deps"], "outcome": o["outcome"],
                 "printed_order": o["order"], "msg": o["msg"][:200]}
+    if o["fam"] == "minigo":
+        return {"fam": "minigo", "shape": o["shape"], "expected": mg_text(o["exp"])[-400:], "observed": mg_text(o)[-400:]}
     return {k: v for k, v in o.items() if k not in ("src", "raw")}
+
+
+def mg_text(e):
+    out = ""
+    for l in e["out"]:
+        out += " ".join(str(t["n"]) if t["k"] == "i" else ("true" if t["n"] else "false") if t["k"] == "b" else rig.b2s(t["s"]) for t in l) + "\n"
+    if e["outcome"] != "ok":
+        out += e["outcome"] + ": " + rig.b2s(e["msg"]) + "\n"
+    return out
 
 
 def nontrivial(o):
@@ -151,6 +543,8 @@ def nontrivial(o):
         return o["t"] == "panic" or o["op"] in ("div", "rem", "shl", "shr", "conv", "not") or len(o["v"]["l"]) >= 2
     if o["fam"] == "initorder":   # at least one dependency edge
         return any(o["deps"])
+    if o["fam"] == "minigo":      # every generated program loops, jumps, aliases or faults
+        return len(o["exp"]["out"]) > 1 or o["exp"]["outcome"] == "panic"
     if o["fam"] == "conv":        # something other than ASCII is involved
         return o["v"] > 127 or o["v"] < 0 or any(x > 127 or x < 0 for x in o["a"])
     return True
@@ -166,6 +560,19 @@ def corrupt(o):
         else:
             v = {"s": 1, "l": [1]} if not o["v"]["l"] else {"s": o["v"]["s"], "l": [(o["v"]["l"][0] + 1) % 10000 or 1] + o["v"]["l"][1:]}
             o["v"] = o["w"] = v
+        return o
+    if o["fam"] == "minigo":
+        o["outcome"] = o["exp"]["outcome"]
+        o["msg"] = o["exp"]["msg"]
+        o["out"] = json.loads(json.dumps(o["exp"]["out"]))
+        if o["out"] and o["out"][-1]:
+            t = o["out"][-1][-1]
+            if t["k"] == "s":
+                t["s"] = t["s"] + [33]
+            else:
+                t["n"] += 1
+        else:
+            o["out"].append([{"k": "i", "n": 1, "s": []}])
         return o
     if o["fam"] == "conv":
         o["out"] = (o["out"][:-1] + [o["out"][-1] ^ 1]) if o["out"] else [65]
@@ -271,10 +678,11 @@ def run(ctx, replay_cases=None):
         parts=infos,
         evaluations=len(allobs), traces_validated_against_impl=len(allobs),
         distinct_nontrivial=len({json.dumps(case_from_obs(o), sort_keys=True) + o.get("form", "") for o in allobs if nontrivial(o)}),
-        rule="conv: all conversions of the 12-value rune set / strings of <= MaxPieces well- and ill-formed UTF-8 pieces; non-trivial = a non-ASCII value is involved. initorder: every dependency graph of the bounded space, one program each; non-trivial = at least one edge. intalu: TLC-exported space (all kinds x operators x boundary operands x shift counts), each case in the source forms var / literal operand / op-assignment / if-condition; non-trivial = result wrapped, shifted out, divided, converted or panicked. One record per (case, form).",
+        rule="minigo: seeded programs of 9 shapes (labelled loops, switch/fallthrough, goto, closures, array/struct/pointer values, slice aliasing, maps, strings, run-time faults), expected output computed by TLC; non-trivial = more than one printed line or a panic. conv: all conversions of the 12-value rune set / strings of <= MaxPieces well- and ill-formed UTF-8 pieces; non-trivial = a non-ASCII value is involved. initorder: every dependency graph of the bounded space, one program each; non-trivial = at least one edge. intalu: TLC-exported space (all kinds x operators x boundary operands x shift counts), each case in the source forms var / literal operand / op-assignment / if-condition; non-trivial = result wrapped, shifted out, divided, converted or panicked. One record per (case, form).",
         exhaustive=True,
         samples=[sample(o) for fam in sorted(by_fam) for o in rig.pick_samples(by_fam[fam], 2, ctx.seed)],
     )
+    ctx.cov["panic_message_detail_differs"] = sum(1 for o in by_fam.get("minigo", []) if o["outcome"] == "panic" and o["exp"]["outcome"] == "panic" and o["msg"] != o["exp"]["msg"])
     # judge
     bads = judge(ctx, "trace", allobs, shards=ctx.pick(6, 12))
     ctx.cov["judged_bad_first_pass"] = len(bads)
